@@ -75,12 +75,45 @@ func caseVariant(r *prng.R, u string) string {
 	return strings.Join(parts, "/")
 }
 
+// nearMissName returns `{name}` spelled slightly differently: another letter case, snake vs camel, a suffix.
+func nearMissName(r *prng.R, seg string) string {
+	name := strings.Trim(seg, "{}")
+	var v string
+	switch r.Intn(5) {
+	case 0:
+		v = strings.ToUpper(name)
+	case 1:
+		v = strings.ToLower(name)
+	case 2:
+		v = strings.ToUpper(name[:1]) + name[1:]
+	case 3:
+		v = strings.ReplaceAll(name, "_", "")
+	default:
+		v = name + "_"
+	}
+	if v == name {
+		v = name + "X"
+	}
+	return "{" + v + "}"
+}
+
 // derive an overlapping pattern from an existing one
 func derivePattern(r *prng.R, p string) string {
 	parts := strings.Split(p, "/")
-	switch r.Intn(9) {
+	switch r.Intn(10) {
 	case 7: // the same pattern in another letter case (a different endpoint)
 		return caseVariant(r, p)
+	case 9: // a parameter renamed to a near-miss of its name (another letter case): a DIFFERENT name, insert refuses it
+		for i := 1; i < len(parts); i++ {
+			if strings.HasPrefix(parts[i], "{") && r.Bool() {
+				parts[i] = nearMissName(r, parts[i])
+				break
+			}
+		}
+		if r.Bool() {
+			parts = append(parts, prng.Pick(r, lits))
+		}
+		return strings.Join(parts, "/")
 	case 0: // other + /*
 		return strings.TrimSuffix(p, "/*") + "/*"
 	case 1: // other + one segment
@@ -623,6 +656,41 @@ func genManySiblingsCase(r *prng.R, id string) proto.Case {
 	return proto.Case{ID: id, Ops: ops}
 }
 
+// Two or three patterns that put a path parameter at the SAME tree position under names that differ only
+// slightly ({userId}/{userid}, {id}/{ID}, {user_id}/{userId}): different names, so the declared insert refuses the
+// second one, in every order; when it is accepted instead, requests report an undeclared pattern and parameters
+// keyed by the other endpoint's spelling.
+func genParamNameCase(r *prng.R, id string) proto.Case {
+	type pair struct{ a, b string }
+	p := prng.Pick(r, []pair{
+		{"api.com/users/{userId}", "api.com/users/{userid}/posts"},
+		{"api.com/users/{id}", "api.com/users/{ID}"},
+		{"a.com/{user_id}/items", "a.com/{userId}/items/{item}"},
+		{"a.com/x/{p}/y", "a.com/x/{P}/z"},
+		{"{region}.acme.com/jobs", "{Region}.acme.com/tasks"},
+	})
+	pats := []string{p.a, p.b}
+	if r.Chance(30) { // a third one with the SAME spelling as the first: accepted next to it
+		pats = append(pats, p.a+"/"+prng.Pick(r, lits))
+	}
+	if r.Chance(30) { // same names everywhere: nothing to refuse
+		pats[1] = strings.NewReplacer("{userid}", "{userId}", "{ID}", "{id}", "{userId}/items", "{user_id}/items", "{P}", "{p}", "{Region}", "{region}").Replace(pats[1])
+	}
+	var ops, reqs []string
+	for i, q := range pats {
+		ops = append(ops, fmt.Sprintf("ep %s %s r=e%dr0:%d:1 d=-", prng.Pick(r, []string{"GET", "GET", "POST"}), proto.Enc(q), i, i+1))
+		u := instantiate(r, q, false)
+		reqs = append(reqs, "req GET "+proto.Enc(u), "req POST "+proto.Enc(u))
+	}
+	for _, o := range allPerms(len(pats)) {
+		ops = append(ops, "build perm="+permStr(o))
+		ops = append(ops, reqs...)
+	}
+	// the raw trie says the same
+	ops = append(ops, "t.ins d "+proto.Enc(p.a)+" 1", "t.ins d "+proto.Enc(p.b)+" 2", "t.look "+proto.Enc(instantiate(r, p.b, false)))
+	return proto.Case{ID: id, Ops: ops}
+}
+
 // ---- L1 cases ---------------------------------------------------------------------------------
 
 func genTrieCase(r *prng.R, id string) proto.Case {
@@ -744,6 +812,8 @@ func gen(r *prng.R, f proto.Flags, emit func(proto.Case)) {
 			emit(genAuthCase(rr, fmt.Sprintf("a%d", k)))
 		case k%100 == 13:
 			emit(genManySiblingsCase(rr, fmt.Sprintf("m%d", k)))
+		case k%25 == 14:
+			emit(genParamNameCase(rr, fmt.Sprintf("n%d", k)))
 		case k%3 == 0:
 			emit(genTrieCase(rr, fmt.Sprintf("t%d", k)))
 		default:
